@@ -502,13 +502,14 @@ func ireachBlock(a, b *ssa.BasicBlock) bool {
 
 // ruleLockHandle: R12.2.
 func ruleLockHandle(p *Prog, r *Report, caller *ssa.Function, site ssa.CallInstruction, fh ssa.Value) {
-	r.rule("R12.2", "In every caller of the lock function the returned file handle is kept alive until the function returns: it is bound (not discarded), its only Close is deferred, and it is not closed by a plain call. (A discarded *os.File is closed by its finalizer at the next GC, dropping the flock while the session runs.)")
+	r.rule("R12.2", "In every caller of the lock function the returned file handle is kept alive until the function returns: it is bound (not discarded), its only uses are nil tests and one deferred (*os.File).Close; it is not closed by a plain call and not handed to any other function (e.g. one that removes the lock file: flock protects the inode, not the name). (A discarded *os.File is closed by its finalizer at the next GC, dropping the flock while the session runs.)")
 	key := "lock-handle|" + shortName(caller)
 	if fh == nil {
 		r.fail("R12.2", key, p.ipos(site), "the lock handle is discarded", "the os.File finalizer releases the lock at the next garbage collection")
 		return
 	}
 	deferred, plain := 0, 0
+	var escapes []string
 	var visit func(v ssa.Value, depth int)
 	seen := map[ssa.Value]bool{}
 	visit = func(v ssa.Value, depth int) {
@@ -521,11 +522,23 @@ func ruleLockHandle(p *Prog, r *Report, caller *ssa.Function, site ssa.CallInstr
 			case *ssa.Defer:
 				if f := x.Common().StaticCallee(); f != nil && shortName(f) == "(*os.File).Close" {
 					deferred++
+				} else {
+					escapes = append(escapes, "deferred call of "+(&callSite{In: x, Static: x.Common().StaticCallee()}).calleeName())
 				}
 			case *ssa.Call:
 				if f := x.Common().StaticCallee(); f != nil && shortName(f) == "(*os.File).Close" {
 					plain++
+				} else {
+					escapes = append(escapes, "passed to "+(&callSite{In: x, Static: x.Common().StaticCallee()}).calleeName())
 				}
+			case *ssa.Go:
+				escapes = append(escapes, "go statement")
+			case *ssa.BinOp, *ssa.DebugRef:
+				// nil comparison
+			case *ssa.MakeClosure:
+				escapes = append(escapes, "captured by a closure")
+			case *ssa.MakeInterface:
+				escapes = append(escapes, "converted to an interface")
 			case *ssa.Phi:
 				visit(x, depth+1)
 			case *ssa.Store:
@@ -541,8 +554,9 @@ func ruleLockHandle(p *Prog, r *Report, caller *ssa.Function, site ssa.CallInstr
 		}
 	}
 	visit(fh, 0)
-	r.add("R12.2", key, p.ipos(site), fmt.Sprintf("lock handle: %d deferred Close, %d plain Close", deferred, plain),
-		deferred >= 1 && plain == 0, "the lock must be held until the function returns (deferred Close only)")
+	r.add("R12.2", key, p.ipos(site), fmt.Sprintf("lock handle: %d deferred Close, %d plain Close, other uses %v", deferred, plain, escapes),
+		deferred >= 1 && plain == 0 && len(escapes) == 0,
+		"the lock must be held until the function returns: the handle may only be nil-tested and closed by a deferred Close; any other use (a helper that unlinks or closes the lock file, a goroutine) can release or orphan the lock while the session runs")
 }
 
 var _ = callgraph.AddEdge
